@@ -419,17 +419,18 @@ func runSchedule(t int, s map[string]any, wdir string, store *peersync.Store, gr
 		case "rand":
 			for k := 0; k < 4; k++ {
 				var a uint64
-				switch rng.Intn(4) {
+				switch rng.Intn(6) {
 				case 0:
 					a = gridAmounts[rng.Intn(len(gridAmounts))]
 				case 1:
 					a = uint64(rng.Int63n(2100000000000000 + 1))
+				case 2:
+					a = rng.Uint64() // any uint64, also >= 2^63
+				case 3:
+					a = uint64(1)<<63 - 1000 + uint64(rng.Intn(2000)) // around 2^63
 				default:
-					// log-uniform up to 21e14
+					// log-uniform up to 2^52
 					a = uint64(rng.Int63n(int64(1) << uint(1+rng.Intn(51))))
-					if a > 2100000000000000 {
-						a = 2100000000000000
-					}
 				}
 				comps = append(comps, compute{peerOrder[rng.Intn(3)], slotOrder[rng.Intn(4)], a})
 			}
